@@ -378,6 +378,37 @@ let op_tq (a : string array) : string =
   abn r;
   Printf.sprintf "S=%s EV=%s T=%d R=%s" (String.concat "," (List.map (fun x -> string_of_int (ni x)) sends))
     (String.concat "" (List.map (fun e -> match e with EvUdpExchange -> "U" | EvTcpExchange -> "T") ev)) (ni t) (res_line r)
+(* the whole API call over time (Timed.v: client_call_timed / client_rrset_timed):
+   tc <client> <strategy> <id> <name> <qtype> <qclass> <start> <lifetime> <qt|-> <buf> <arrivals> <accept|-> <segments> <eof|-> <rd 0|1> <edns ver:payload|-> <kind raw|rrN> *)
+let op_tc (a : string array) : string =
+  let std = (a.(0) = "std") and smol = (a.(0) = "smol") in
+  let strategy = n_of_int (match a.(1) with "tcp" -> 1 | "notcp" -> 2 | _ -> 0) in
+  let q = tquery_of a 2 (int_of_string a.(6)) in
+  let lifetime = n_of_int (int_of_string a.(7)) in
+  let qt = if a.(8) = "-" then None else Some (n_of_int (int_of_string a.(8))) in
+  let buf = n_of_int (int_of_string a.(9)) in
+  let arrs = parse_arrivals a.(10) in
+  let bytes = List.concat (List.map (fun (t, seg) -> List.map (fun b -> (t, b)) seg) (parse_arrivals a.(12))) in
+  let srv = { tp_accept = (if a.(11) = "-" then None else Some (n_of_int (int_of_string a.(11))));
+              tp_bytes = bytes; tp_eof = (if a.(13) = "-" then None else Some (n_of_int (int_of_string a.(13)))) } in
+  let edns = if a.(15) = "-" then None else
+      (match String.split_on_char ':' a.(15) with
+       | [v; p] -> Some (n_of_int (int_of_string v), n_of_int (int_of_string p)) | _ -> None) in
+  let cfg = { cc_rd = (a.(14) = "1"); cc_edns = edns; cc_lifetime = lifetime; cc_qt = qt; cc_strategy = strategy } in
+  let wire_s (dgrams, tcp) =
+    Printf.sprintf "S=%s W=%s TW=%s" (String.concat "," (List.map (fun (t, _) -> string_of_int (ni t)) dgrams))
+      (match dgrams with [] -> "-" | (_, d) :: rest -> if List.for_all (fun (_, d') -> d' = d) rest then hex d else "DIFFER")
+      (match tcp with None -> "-" | Some b -> hex b) in
+  let evs ev = String.concat "" (List.map (fun e -> match e with EvUdpExchange -> "U" | EvTcpExchange -> "T") ev) in
+  if a.(16) = "raw" then begin
+    let (((wire, ev), r), t) = client_call_timed std smol q cfg zero_jit zero_jit buf arrs srv in
+    abn r;
+    Printf.sprintf "%s EV=%s T=%d R=%s" (wire_s wire) (evs ev) (ni t) (res_line r)
+  end else begin
+    let (((wire, ev), r), t) = client_rrset_timed std smol q cfg zero_jit zero_jit buf arrs srv in
+    abn r;
+    Printf.sprintf "%s EV=%s T=%d R=%s" (wire_s wire) (evs ev) (ni t) (pres r (fun _ -> "RS"))
+  end
 (* history: client lifetime qt queue then per query: id name type class start *)
 let op_th (a : string array) : string =
   let std = (a.(0) = "std") and smol = (a.(0) = "smol") in
@@ -414,6 +445,7 @@ let dispatch (op : string) (a : string array) : string =
   | "xq" -> op_xq a
   | "tq" -> op_tq a
   | "th" -> op_th a
+  | "tc" -> op_tc a
   | "iter" -> op_iter (unhex a.(0))
   | "rrset" -> op_rrset (int_of_string a.(0)) (unhex a.(1))
   | _ -> "BADOP(" ^ op ^ ")"
